@@ -53,9 +53,10 @@ PROGRAMS = [
     ["grid", ["naive", "last"], {"strategy": ["last", "mean"]}],
 ]
 DATA_FAULTS = ["unsorted", "empty", "dataframe", "ndarray", "list", "x_index", "x_shorter"]
-FH_FAULTS = ["dup", "empty", "frac", "str", "dict", "set", "series", "missing"]
+FH_FAULTS = ["dup", "dup_index", "dup_array", "dup_range", "empty", "frac", "frac_array", "str",
+             "dict", "set", "series", "missing"]
 CONTEXTS = [(12, 0, "range"), (15, 5, "range"), (12, 3, "index")]
-FHS = [[1], [1, 3]]
+FHS = [[1], [1, 3], [3, 5]]
 
 
 def _y(ctx):
@@ -88,8 +89,10 @@ def _bad_y(y, fault):
 
 
 def _bad_fh(fault):
-    return {"dup": [1, 1], "empty": [], "frac": [1.5], "str": "1", "dict": {1: 2},
-            "set": {1, 2}, "series": pd.Series([1, 2])}[fault]
+    return {"dup": [1, 1], "dup_index": pd.Index([1, 1, 3], dtype="int64"),
+            "dup_array": np.array([2, 2]), "dup_range": pd.Index([2, 1, 2], dtype="int64"),
+            "empty": [], "frac": [1.5], "frac_array": np.array([1.0, 2.5]), "str": "1",
+            "dict": {1: 2}, "set": {1, 2}, "series": pd.Series([1, 2])}[fault]
 
 
 def gen_cases(tier, seed):
@@ -114,7 +117,10 @@ def gen_cases(tier, seed):
                                    fh=fhi)
                 if sp != "cutoff":
                     yield dict(entry="splitter", splitter=sp, which="toolong", ctx=ci, fh=fhi)
-                for fault in ("dup", "frac", "str", "dict", "set", "series", "empty"):
+                    # the shortest window that does not fit: n - max(fh) + 1
+                    yield dict(entry="splitter", splitter=sp, which="toolong1", ctx=ci, fh=fhi)
+                for fault in ("dup", "dup_index", "dup_array", "frac", "frac_array", "str",
+                              "dict", "set", "series", "empty"):
                     yield dict(entry="splitter", splitter=sp, which="fh:" + fault, ctx=ci, fh=fhi)
                 for fault in ("unsorted", "empty"):
                     yield dict(entry="splitter", splitter=sp, which="y:" + fault, ctx=ci, fh=fhi)
@@ -122,6 +128,7 @@ def gen_cases(tier, seed):
                 for bi in range(len(BAD_INT)):
                     yield dict(entry="setting", which=which, bad=bi, ctx=ci, fh=fhi)
             for which in ["naive:strategy", "naive:toolong", "naive:sp_toolong", "red:toolong",
+                          "red:toolong1",
                           "red:strategy", "red:scitype", "ens:aggfunc", "naive:mean_w_lt_sp",
                           "naive:drift_w1"]:
                 yield dict(entry="setting", which=which, ctx=ci, fh=fhi)
@@ -138,8 +145,8 @@ def gen_cases(tier, seed):
                           "grid:emptylist", "grid:unknownparam"):
                 for search in ("grid", "rand"):
                     yield dict(entry="tune", which=which, search=search, ctx=ci, fh=fhi)
-            for which in ("fh+test_size", "fh+train_size", "fh:insample", "fh:dup", "fh:frac",
-                          "fh:str", "x_index"):
+            for which in ("fh+test_size", "fh+train_size", "fh:insample", "fh:dup", "fh:dup_index",
+                          "fh:frac", "fh:str", "x_index"):
                 yield dict(entry="tts", which=which, ctx=ci, fh=fhi)
 
 
@@ -284,7 +291,11 @@ def _mk_splitter(kind, fh, W, s, n):
         return ExpandingWindowSplitter(fh=fh, initial_window=W, step_length=s)
     if kind == "single":
         return SingleWindowSplitter(fh=fh, window_length=W)
-    return CutoffSplitter(np.array([n - 5, n - 4]), fh=fh, window_length=W)
+    try:
+        H = int(max(fh))
+    except Exception:
+        H = 3
+    return CutoffSplitter(np.array([n - H - 2, n - H - 1]), fh=fh, window_length=W)
 
 
 def _splitter_cell(res, case, y, fh, nt):
@@ -302,6 +313,9 @@ def _splitter_cell(res, case, y, fh, nt):
         bad = call(run, fh, b if which == "window" else 3, b if which == "step" else 1, y)
     elif which == "toolong":
         bad = call(run, fh, n + 2, 1, y)
+    elif which == "toolong1":
+        good = call(run, fh, n - max(fh), 1, y)  # the longest window that still fits
+        bad = call(run, fh, n - max(fh) + 1, 1, y)
     elif which.startswith("fh:"):
         bad = call(run, _bad_fh(which[3:]), 3, 1, y)
     else:
@@ -361,6 +375,10 @@ def _setting_cell(res, case, y, fh, nt):
     elif which == "red:toolong":
         bad = call(prog, lambda: make_reduction(LinearRegression(), "direct", n), fh, None)
         good = call(prog, lambda: make_reduction(LinearRegression(), "direct", 3), fh, None)
+    elif which == "red:toolong1":
+        H = max(fh)
+        bad = call(prog, lambda: make_reduction(LinearRegression(), "direct", n - H + 1), fh, None)
+        good = call(prog, lambda: make_reduction(LinearRegression(), "direct", n - H), fh, None)
     elif which == "red:strategy":
         bad = call(prog, lambda: make_reduction(LinearRegression(), "foo", 3), fh, None)
         good = call(prog, lambda: make_reduction(LinearRegression(), "direct", 3), fh, None)
